@@ -280,7 +280,7 @@ CHECKS = {
  'C40': dict(
     level='exploration',
     technique='runtime monitoring: metamorphic monitor over limits (reproducibility, monotonicity, sharp threshold found by binary search) plus reference answers, nesting and leftover-state probes',
-    text="For 10 goal families with known answers (deterministic recursion, naive reverse, member/between enumerations, failing goals, cuts, if-then-else, inner findall, arithmetic) the outcome list of call_with_inference_limit/3 is observed at 12-22 limits per goal: the threshold below which the limit is exceeded must be sharp, every outcome must repeat on the same machine and on a second machine, answers at a smaller limit must be a prefix of those at a larger one and equal the unrestricted answers from the threshold on; a nested limit must not hide the inner goal's inferences from the outer count, work after an exceeded inner limit must run, an exception inside must propagate, an infinite loop must be stopped, and a reference goal's threshold is re-measured after every family (no leftover state).",
+    text="For 10 goal families with known answers (deterministic recursion, naive reverse, member/between enumerations, failing goals, cuts, if-then-else, arithmetic) the outcome list of call_with_inference_limit/3 is observed at 12-22 limits per goal: the threshold below which the limit is exceeded must be sharp, every outcome must repeat on the same machine and on a second machine, answers at a smaller limit must be a prefix of those at a larger one and equal the unrestricted answers from the threshold on; a nested limit must not hide the inner goal's inferences from the outer count, work after an exceeded inner limit must run, an exception inside must propagate, an infinite loop must be stopped, and a reference goal's threshold is re-measured after every family (no leftover state).",
     note='true vs ! in the result argument is not asserted; a nested call may add a constant overhead of at most 200 inferences.'),
  'C25': dict(
     level='exploration',
